@@ -9,6 +9,7 @@ from sa.astutil import (anorm, call_name, calls_in, dotted, norm, walk_no_nested
                         names_in, format_fields, concat_str, enclosing_loops, ancestors,
                         str_consts)
 from sa.loader import AnalysisError
+from sa.canon import canon
 from sa.tables import columns_of_slice
 from checks.recordloop import RecordLoop
 from checks import common
@@ -197,7 +198,7 @@ def run(ctx):
                 continue
             n_dec += 1
             missing = RESIDUE_KEY - comps
-            key = 'decision:%s.%s:%s' % (fid[0], fid[1], anorm(node, fn)[:80])
+            key = 'decision:%s.%s:%s' % (fid[0], fid[1], canon(fn).text(node)[:140])
             if missing:
                 key += ':missing=' + '+'.join(sorted(missing))
             ctx.ob('C06.R1', key, not missing,
